@@ -195,8 +195,9 @@ def _chunk(task):
 
 
 def PROOFS():
-    from ..contracts import config_c
-    return [("vf.contracts.config_c", config_c.FUNCTIONS)]
+    from ..contracts import config_c, variable_c, terms_c
+    return [("vf.contracts.config_c", config_c.FUNCTIONS), ("vf.contracts.variable_c", variable_c.FUNCTIONS),
+            ("vf.contracts.terms_c", terms_c.FUNCTIONS)]
 
 
 def run(report, findings):
